@@ -26,6 +26,27 @@ STOCHASTIC_OK = {"BaseWorker.get_work_amount_skill_progress", "BaseFacility.get_
                  "BaseWorker.get_quality_skill_point", "BaseComponent.update_error_value"}
 
 
+def stochastic_ok(ctx):
+    """The documented stochastic helpers and the private helpers they are split into: a function all of whose (resolved,
+    in-package) callers are stochastic helpers themselves."""
+    ok = set(STOCHASTIC_OK)
+    callers = {}
+    for g in ctx.repo.all_funcs():
+        for cs in ctx.eff.calls_of(g):
+            if cs.resolved:
+                for c in cs.callees:
+                    callers.setdefault(c.qualname, set()).add(g.qualname)
+    changed = True
+    while changed:
+        changed = False
+        for q, cl in callers.items():
+            name = q.split(".")[-1]
+            if q not in ok and cl and cl <= ok and name.startswith("_") and not name.endswith("__"):
+                ok.add(q)
+                changed = True
+    return ok
+
+
 # ------------------------------------------------------------------------------------------ R9.1
 def unordered_expr(func, e, depth=0):
     """Is the value of expression `e` in `func` an unordered collection (set or list/filter/map built from one)?"""
@@ -219,6 +240,7 @@ def r9_1(ctx):
 # ------------------------------------------------------------------------------------------ R9.2
 def r9_2(ctx):
     ctx.begin("R9.2", "no identity / clock / uuid / random leaks in simulation-reachable code and priority rules", floor=20)
+    stoch_ok = stochastic_ok(ctx)
     funcs = {id(g.node): g for g in sim_reach(ctx, precise=not ctx.thorough)}
     for n in ("sort_task_list", "sort_worker_list", "sort_facility_list", "sort_workplace_list"):
         g = ctx.repo.func(n)
@@ -243,9 +265,9 @@ def r9_2(ctx):
                     bad = txt
                 if isinstance(n.value, ast.Attribute) is False and n.value.id in ("random",):
                     bad = txt
-                if bad and g.qualname not in STOCHASTIC_OK:
+                if bad and g.qualname not in stoch_ok:
                     ctx.violation(construct(g, f"nondeterminism:{bad}"), g.loc(n), f"`{bad}` used in simulation code")
-            if isinstance(n, ast.Attribute) and ast.unparse(n).startswith(("np.random.", "numpy.random.")) and g.qualname not in STOCHASTIC_OK:
+            if isinstance(n, ast.Attribute) and ast.unparse(n).startswith(("np.random.", "numpy.random.")) and g.qualname not in stoch_ok:
                 ctx.violation(construct(g, "nondeterminism:np.random"), g.loc(n), f"`{ast.unparse(n)}` outside the documented stochastic helpers")
     ctx.end()
 
